@@ -37,6 +37,10 @@ def apply_edit(engine, ed: dict) -> None:
             return
         term = v.terms[ed["ti"] % len(v.terms)]
         if t == "term_attr":
+            # (the same applicability rule as apply_edit_spec: Function / Linear specs carry no scalar attribute, a Constant's
+            # only one is its value - an edit generated for another term may land here after swap_terms or a shrink step)
+            if isinstance(term, (fl.Function, fl.Linear)) or (isinstance(term, fl.Constant) and ed["attr"] != "value"):
+                return
             if hasattr(term, ed["attr"]) and isinstance(getattr(term, ed["attr"]), (float, int)) and not isinstance(getattr(term, ed["attr"]), bool):
                 setattr(term, ed["attr"], fdec(ed["v"]))
         elif t == "discrete_cell":
@@ -70,6 +74,8 @@ def apply_edit(engine, ed: dict) -> None:
         if len(terms) > 1:
             i, j = ed["ti"] % len(terms), (ed["ti"] + 1) % len(terms)
             terms[i], terms[j] = terms[j], terms[i]
+    elif t == "gain0":
+        S.set_gain(fdec(ed["v"]))  # the parameter of the user-defined function element (process-global, like its factory)
     elif t == "resolution":
         d = engine.output_variables[ed["out"] % len(engine.output_variables)].defuzzifier
         if isinstance(d, fl.IntegralDefuzzifier):
@@ -135,6 +141,8 @@ def apply_edit_spec(spec: dict, ed: dict) -> None:
         if len(terms) > 1:
             i, j = ed["ti"] % len(terms), (ed["ti"] + 1) % len(terms)
             terms[i], terms[j] = terms[j], terms[i]
+    elif t == "gain0":
+        spec["gain0"] = ed["v"]
     elif t == "resolution":
         d = spec["outputs"][ed["out"] % len(spec["outputs"])]["defuzzifier"]
         if d and "resolution" in d:
@@ -161,6 +169,8 @@ def gen_edit(rng, spec: dict) -> dict:
         t = rng.choice(["term_attr", "term_attr", "term_attr", "discrete_cell", "linear_coeff", "function_var", "range",
                         "rule_weight", "resolution", "activation_param", "operator", "out_setting", "unload_rule", "swap_rules",
                         "swap_terms"])
+        if S.uses_gain0(spec) and rng.random() < 0.3:
+            return {"t": "gain0", "v": fenc(rng.choice([0.5, 2.0, 1.0, 0.25]))}
         if t in ("unload_rule", "swap_rules"):
             bi = rng.randrange(len(spec["blocks"]))
             return {"t": t, "b": bi, "r": rng.randrange(len(spec["blocks"][bi]["rules"]))}
@@ -306,7 +316,8 @@ def _term_snap(t) -> tuple:
 def _obj_snap(o) -> tuple:
     if o is None:
         return ("None",)
-    return (type(o).__name__,) + tuple((k, fx(v) if isinstance(v, (float, int)) and not isinstance(v, bool) else str(v))
+    return (type(o).__name__,) + tuple((k, fx(v) if isinstance(v, (float, int)) and not isinstance(v, bool) else (
+        "callable:" + getattr(v, "__qualname__", type(v).__name__) if callable(v) and not hasattr(v, "membership") else str(v)))
                                        for k, v in sorted(vars(o).items()) if not k.startswith("_sim"))
 
 
@@ -361,7 +372,7 @@ def graph_problem(engine) -> str:
     vars_by_id = {id(v): v for v in engine.variables}
     for v in engine.variables:
         for t in v.terms:
-            if isinstance(t, (fl.Linear, fl.Function)) and t.engine is not engine:
+            if (isinstance(t, (fl.Linear, fl.Function)) or "engine" in vars(t)) and t.engine is not engine:
                 return f"{type(t).__name__} term {v.name}.{t.name} references {'no' if t.engine is None else 'another'} engine"
     for ov in engine.output_variables:
         own = {id(t) for t in ov.terms}
@@ -420,6 +431,14 @@ def set_inputs(engine, rows: list, setter: str = "vars") -> None:
     n_in = len(engine.input_variables)
     arr = np.array([[fdec(v) for v in row][:n_in] + [float("nan")] * max(0, n_in - len(row)) for row in rows], dtype=float)
     arr = arr.reshape(len(rows), n_in)
+    if len(rows) == 0:
+        # an empty batch (a filter that selected no row): accepted by the library, every output is an empty array
+        if setter == "matrix":
+            engine.input_values = arr.copy()
+        else:
+            for iv in engine.input_variables:
+                iv.value = np.empty(0)
+        return
     if setter == "matrix" and len(rows) > 1:
         engine.input_values = arr.copy()  # the engine-level matrix setter
         return
@@ -439,7 +458,8 @@ def set_inputs(engine, rows: list, setter: str = "vars") -> None:
             iv.value = np.array(arr[0, c])  # a 0-d array, what fl.scalar(x) returns: a *mutable* scalar
         elif setter == "npfloat":
             iv.value = np.float64(arr[0, c])
-        elif setter == "pyint" and np.isfinite(arr[0, c]) and float(arr[0, c]).is_integer():
+        elif setter == "pyint" and np.isfinite(arr[0, c]) and float(arr[0, c]).is_integer() and abs(arr[0, c]) < 2.0**53:
+            # (a Python int beyond int64 would turn every NumPy result into an object array: not a numeric input any more)
             iv.value = int(arr[0, c])  # users write `variable.value = 1`
         else:
             iv.value = float(arr[0, c])
@@ -567,6 +587,7 @@ def apply_replace_term(engine, op: dict, spec_after: dict) -> None:
 
 # ---------------------------------------------------------------------------- generic disjointness of object graphs
 import collections as _collections
+import functools as _functools
 import enum as _enum
 import types as _types
 
@@ -578,10 +599,28 @@ def reachable_objects(engine) -> dict[int, str]:
     """ids (with a path for diagnostics) of every mutable object reachable from an engine through attributes,
     lists, dicts, sets, deques and tuples: fuzzylite component objects, containers and ndarrays."""
     seen: dict[int, str] = {}
+    walked_callables: set[int] = set()
     stack = [(engine, "engine")]
     while stack:
         o, path = stack.pop()
-        if isinstance(o, _ATOMIC) or id(o) in seen:
+        if id(o) in seen or id(o) in walked_callables:
+            continue
+        if isinstance(o, (_types.FunctionType, _types.MethodType, _functools.partial)):
+            # functions are shared by deepcopy (and may be); what a closure, a bound method or a partial *holds* may not
+            for j, cell in enumerate(getattr(o, "__closure__", None) or ()):
+                try:
+                    stack.append((cell.cell_contents, f"{path}.<closure {j}>"))
+                except ValueError:
+                    pass
+            if isinstance(o, _types.MethodType):
+                stack.append((o.__self__, f"{path}.__self__"))
+            if isinstance(o, _functools.partial):
+                stack.append((o.func, f"{path}.func"))
+                stack.append((o.args, f"{path}.args"))
+                stack.append((o.keywords, f"{path}.keywords"))
+            walked_callables.add(id(o))
+            continue
+        if isinstance(o, _ATOMIC):
             continue
         if isinstance(o, np.ndarray):
             seen[id(o)] = path
@@ -598,7 +637,7 @@ def reachable_objects(engine) -> dict[int, str]:
                 stack.append((x, f"{path}[{k!r}]"))
             continue
         mod = getattr(type(o), "__module__", "") or ""
-        if mod.startswith("fuzzylite") and hasattr(o, "__dict__"):
+        if mod.startswith(("fuzzylite", "simkit", "sims")) and hasattr(o, "__dict__") and not isinstance(o, type):
             if vars(o):  # an object without attributes (Minimum(), General(), Very()) holds no state that could be shared
                 seen[id(o)] = path
             for k, x in vars(o).items():
